@@ -657,7 +657,7 @@ Definition oc_call_from_base (c : config) (base : node) (optional : bool) (s : o
             | None => (None, s1)
             end
         end
-      else (Some (mk KCall DUMMY [cx; callee; Node Lst args; targs]), s)
+      else (Some base, s)       (* a link that is not optional: the call as it was, position included *)
   | _ => (None, s)
   end.
 
